@@ -1,4 +1,4 @@
-(* C08-F1 — the array shaping of TreeSequence.genetic_relatedness(..., proportion=True),
+(* C08-F1 (fixed by af93ddc) — the array shaping of TreeSequence.genetic_relatedness(..., proportion=True),
    python/tskit/trees.py 8518-8547, as a function on shapes (lists of dimensions).
    numpy.reshape succeeds iff the number of elements is preserved. *)
 From Coq Require Import List ZArith Bool Lia.
@@ -29,9 +29,9 @@ Definition out_shape (windows : option nat) (node_mode : bool) (num_nodes : nat)
 Definition denominator_shape (windows : option nat) (node_mode : bool) (num_nodes : nat) : shape :=
   lead windows node_mode num_nodes.
 
-(* lines 8540-8545: None = ValueError("cannot reshape array ...");
-   `isinstance(denominator, float)` holds exactly for the 0-dimensional result *)
-Definition proportion_shape (windows : option nat) (node_mode : bool) (num_nodes : nat)
+(* PINNED pre-fix code (lines 8540-8545 before af93ddc): None = ValueError("cannot reshape
+   array ..."); `isinstance(denominator, float)` holds exactly for the 0-dimensional result *)
+Definition proportion_shape_pinned (windows : option nat) (node_mode : bool) (num_nodes : nat)
            (indexes : option (bool * nat)) : option shape :=
   let out := out_shape windows node_mode num_nodes indexes in
   let den := denominator_shape windows node_mode num_nodes in
@@ -39,10 +39,28 @@ Definition proportion_shape (windows : option nat) (node_mode : bool) (num_nodes
   | None, _ => Some out
   | Some _, [] => Some out
   | Some _, _ => match reshape den (set_last out 1) with
-                 | Some _ => Some out      (* broadcasting out /= denominator keeps out's shape *)
+                 | Some _ => Some out
                  | None => None
                  end
   end.
+
+(* numpy broadcasting of `out /= denominator` (in place: the result keeps out's shape):
+   equal rank here, every denominator dimension equal to out's or 1 *)
+Fixpoint broadcastable (den out : shape) : bool :=
+  match den, out with
+  | [], [] => true
+  | d :: den', o :: out' => (Nat.eqb d o || Nat.eqb d 1) && broadcastable den' out'
+  | _, _ => false
+  end.
+
+(* repaired code: `if np.ndim(out) == np.ndim(denominator) + 1:
+                      denominator = np.asarray(denominator)[..., np.newaxis]` *)
+Definition proportion_shape (windows : option nat) (node_mode : bool) (num_nodes : nat)
+           (indexes : option (bool * nat)) : option shape :=
+  let out := out_shape windows node_mode num_nodes indexes in
+  let den := denominator_shape windows node_mode num_nodes in
+  let den' := if Nat.eqb (length out) (S (length den)) then den ++ [1] else den in
+  if broadcastable den' out then Some out else None.
 
 (* what the documentation promises: the shape of the un-normalised statistic *)
 Definition documented_shape := out_shape.
